@@ -257,6 +257,14 @@ func C01(c *core.Ctx) {
 	c01RemoveForwarded(c, "R9", calls, sets)
 	// R3 continued: below the driver interface the request is addressed {SEID, id} as well
 	gnlOidForm(c, "R3")
+	// R4 continued: the URR record is dropped at an emission site only under its removed mark (C11 R3) - a record
+	// dropped for any other reason (a termination report of a URR that merely lost its last PDR) is a rule the
+	// session forgets while it is still installed
+	shareFrom(c, "C11", "R4", func(o *core.Obligation) bool { return o.Rule == "R3" && strings.Contains(o.Key, "/R3/record-dropped") }, 2, "places that drop a URR record")
+	// R5 continued: Close withdraws through Driver.Remove<K>, and the gtp5g driver turns each into the netlink
+	// removal of that very kind (C02/C03 R5 oid-call)
+	shareFrom(c, "C02", "R5", func(o *core.Obligation) bool { return o.Rule == "R5" && strings.Contains(o.Key, "/R5/oid-call:Remove") }, 2, "PDR/FAR removals of the gtp5g driver")
+	shareFrom(c, "C03", "R5", func(o *core.Obligation) bool { return o.Rule == "R5" && strings.Contains(o.Key, "/R5/oid-call:Remove") }, 3, "QER/URR/BAR removals of the gtp5g driver")
 	handlerDispatch(c, "R1", nil)
 	c01EndPaths(c, "R6", true)
 	// R8: periodic queries are data-plane operations too: a URR is registered for them once (by Create URR)
